@@ -576,7 +576,11 @@ def untry(b, term):
             v = "as:Ok" if selfty.startswith("std::result::Result<") else ("as:Some" if selfty.startswith("std::option::Option<") else None)
             if v is None:
                 return None
-            return mir.mk_proj(untry(b, q[1][2][0]), (v, "0") + tuple(q[2][2:]))
+            # (projecting distributes over alternatives and can create new readable / infeasible payload reads: read those too)
+            return mir.subst(mir.mk_proj(untry(b, q[1][2][0]), (v, "0") + tuple(q[2][2:])), f)
+        # the early-return value of `x?` is an Err / a None: reading its Ok / Some payload is an infeasible alternative
+        if q[0] == "proj" and q[1][0] == "call" and q[1][1].endswith("FromResidual::from_residual") and q[2] and q[2][0] in ("as:Ok", "as:Some"):
+            return ("never",)
         # the early-return value of `opt?`: None
         if q[0] == "call" and q[1].endswith("FromResidual::from_residual") and len(q[2]) == 1:
             r = q[2][0]
@@ -974,3 +978,17 @@ def callable_return(ctx, c):
         n = fb.argc
         return mir.subst_params(fb.return_term(), [("cparam", i + 1) for i in range(n)])
     return None
+
+
+def processing_sites(calls):
+    """the places where a runner processes one event and turns the output into an audit record: a call of the helper
+    `process_with_audit(engine, event)` or its body `engine.audit(engine.process(event))` written out.
+    Returns [(block, terminator, the call term whose value is the audit record, engine term, event term)]"""
+    out = []
+    for bi, t, tm in calls:
+        if mir.short(tm[1]) == "engine::process_with_audit" and len(tm[2]) == 2:
+            out.append((bi, t, tm, tm[2][0], tm[2][1]))
+        elif tm[1].endswith("Auditor::audit") and len(tm[2]) == 2 and tm[2][1][0] == "call" and tm[2][1][1].endswith("Processor::process") \
+                and len(tm[2][1][2]) == 2 and tm[2][1][2][0] == tm[2][0]:
+            out.append((bi, t, tm, tm[2][0], tm[2][1][2][1]))
+    return out
